@@ -4,6 +4,7 @@
   growing (re)allocations.  Trusted: `Vec::resize` within capacity does not allocate.
 -/
 import RSVerif.Proofs.AllocSelect
+import RSVerif.Proofs.SrcWorkSpec
 
 namespace RS
 
@@ -56,5 +57,23 @@ theorem one_allocation (stale : Stale) (kind : Kind) (sched : Sched) (k r sb B C
       DecOp.BoundedCfg B C kind dops → DecOp.run stale d0 dops = some d' →
       d'.allocs = 1 ∧ d'.bitAllocs = 1 ∧ d'.held = B ∧ d'.bitLen = C) :=
   ⟨EncOp.history_one_alloc_cfg, DecOp.history_one_alloc_cfg⟩
+
+/-! ### the same, about the SOURCE as translated today (Gen/SrcWork.lean, regenerated on every run) -/
+
+open RS.RustW RS.SrcW in
+/-- the translated `reset` methods: every counter is a function of the arguments alone, every bit is off,
+    the index bitmap keeps its length unless it is shorter than the highest position in use (it is never
+    re-created), and the shard memory goes through `Shards::resize` once -/
+theorem source_reset {σ : Type} (ops : ShardsOps σ) (k r sb ob rb wc : Nat) (hsb : sb % 2 = 0)
+    (h1 : ob + k < 18446744073709551616) (h2 : rb + r < 18446744073709551616) :
+    (∀ st : DecoderWorkS σ, DecoderWork_reset ops st k r sb ob rb wc = some ((),
+      { original_count := k, recovery_count := r, shard_bytes := sb, original_base_pos := ob,
+        recovery_base_pos := rb, original_received_count := 0, recovery_received_count := 0,
+        received := Array.replicate (max st.received.size (max (ob + k) (rb + r))) false,
+        shards := ops.resize st.shards wc ((sb + 63) / 64) })) ∧
+    (∀ st : EncoderWorkS σ, EncoderWork_reset ops st k r sb wc = some ((),
+      { original_count := k, recovery_count := r, shard_bytes := sb, original_received_count := 0,
+        shards := ops.resize st.shards wc ((sb + 63) / 64) })) :=
+  ⟨fun st => srcD_reset_spec ops st k r sb ob rb wc hsb h1 h2, fun st => srcE_reset_spec ops st k r sb wc hsb⟩
 
 end RS
